@@ -70,8 +70,9 @@ Fn(f, s, t, n, m) ==
     [] f = "upper"       -> Upper(s)
     [] f = "lower"       -> Lower(s)
     [] f = "concat_op"   -> s \o t
-    [] f = "left"        -> Take(s, n)
-    [] f = "right"       -> TakeRight(s, n)
+    (* a negative count means "all but the last / first |n| characters" *)
+    [] f = "left"        -> IF n >= 0 THEN Take(s, n) ELSE (IF Len(s) + n <= 0 THEN <<>> ELSE Take(s, Len(s) + n))
+    [] f = "right"       -> IF n >= 0 THEN TakeRight(s, n) ELSE (IF Len(s) + n <= 0 THEN <<>> ELSE TakeRight(s, Len(s) + n))
     [] f = "substring"   -> Substr(s, n, m)
     [] f = "repeat"      -> Rep(s, n)
     [] f = "lpad"        -> Lpad(s, n, t)
